@@ -158,7 +158,7 @@ def canon(node):
     if k == 'o':
         return 'o' + node[1] + '{' + ''.join(f'{f}={canon(x)}' for f, x in sorted(node[2].items())) + '}'
     if k == 'd':
-        return 'd[' + ''.join(sorted(canon(a) + canon(b) for a, b in node[2])) + ']'
+        return 'd[' + ''.join(sorted(canon(a) + canon(b) for a, b in node[1])) + ']'
     raise ValueError(k)
 
 
